@@ -1,20 +1,28 @@
 #!/bin/bash
-# Runs every seeded change against its own property's quick check (applies the patch to /repo, runs, reverts)
-# and writes one line per seed to seeded/REGRESSION.txt. Nothing else may use /repo while this runs.
+# Runs every seeded change against its own property's quick check and writes one line per seed to
+# seeded/REGRESSION.txt. /repo is left alone: each patch is applied in a scratch worktree of /repo HEAD and the
+# check builds against it (VERIF_REPO, see tools/try_seed_alt.sh). Four lanes, each owning a set of properties.
+# Do not edit the harness while this runs (every check rebuilds it).
 cd /verif
 out=seeded/REGRESSION.txt
-: > $out.tmp
-for d in seeded/C*-m*/; do
-  id=$(basename $d); prop=${id%%-*}
-  if ! git -C /repo apply --check /verif/$d/patch.diff 2>/dev/null; then echo "$id does-not-apply" >> $out.tmp; continue; fi
-  res=$(VERIF_QUICK_SCALE=${VERIF_QUICK_SCALE:-4} timeout 1500 ./tools/try_seed.sh $id $prop 2>&1 | grep -E "^(OK|RESULT|INFRA)" | head -1)
-  case "$res" in
-    RESULT*violations=0*) echo "$id MISSED ($res)" >> $out.tmp;;
-    RESULT*) echo "$id caught by $prop" >> $out.tmp;;
-    OK*) echo "$id MISSED by $prop" >> $out.tmp;;
-    *) echo "$id UNCLEAR: $res" >> $out.tmp;;
-  esac
-done
-mv $out.tmp $out
-git -C /repo status --short | head -3
+lanes=${LANES:-4}
+lane() {
+  l=$1; : > $out.tmp.$l
+  n=0
+  for p in C01 C02 C03 C04 C05 C06 C07 C08 C09 C10 C11 C12 C13 C14 C15 C16 C17 C18 C19 C20; do
+    n=$((n+1)); [ $((n % lanes)) -eq $l ] || continue
+    for d in seeded/$p-m*/; do
+      id=$(basename $d)
+      res=$(VERIF_QUICK_SCALE=${VERIF_QUICK_SCALE:-4} HEADN=400 timeout 1500 ./tools/try_seed_alt.sh $id $p 2>&1)
+      if echo "$res" | grep -q "apply failed"; then echo "$id does-not-apply" >> $out.tmp.$l; continue; fi
+      if echo "$res" | grep -q "^VIOLATION"; then echo "$id caught by $p" >> $out.tmp.$l
+      elif echo "$res" | grep -q "^OK"; then echo "$id MISSED by $p" >> $out.tmp.$l
+      else echo "$id UNCLEAR: $(echo "$res" | grep -E '^(RESULT|INFRA)' | head -1)" >> $out.tmp.$l; fi
+    done
+  done
+}
+for l in $(seq 0 $((lanes-1))); do lane $l & done
+wait
+echo "# every seeded change against its own property's quick check at /repo $(git -C /repo rev-parse --short HEAD), harness $(git rev-parse --short HEAD) (tools/regress_seeds.sh)" > $out
+cat $out.tmp.* | sort -V >> $out; rm -f $out.tmp.*
 echo regression done
